@@ -51,6 +51,7 @@ def run(ctx):
     run_fault(ctx, "asan", 6 if ctx.quick() else 60)
     n = 4000 if ctx.quick() else 50000
     cases, bad = tc.run_stream(ctx, "rejected-calls-keep-operands", BW_INPLACE, n, backend="naive")
+    tc.optional_part(ctx, "frontend", "run_part", 3000 if ctx.quick() else 40000)
     ctx.cov["rule"] = ("fault_drv: every accessor/arithmetic use of default-constructed and moved-from tensors/nodes/parameters, nodes of two graphs (incl. the scalar-first form), tensors of two devices, "
                        "rejected optimizer/model calls with before/after snapshots, allocation failure injected at EVERY allocation index k of tensor/parameter construction and of forward evaluation of 6 program families "
                        "followed by re-evaluation that must equal the never-failing run bit for bit; tensor stream: backward / in-place Device entry points with invalid shapes, axes and offsets near 2^32 whose "
